@@ -6,6 +6,7 @@ import DaeVerif.C13.EP
 import DaeVerif.C13.EPC
 import DaeVerif.C13.Route
 import DaeVerif.C13.Batch
+import DaeVerif.C13.Ingress
 /-!
 # C13 — executable models (core Lean only)
 
@@ -16,5 +17,7 @@ import DaeVerif.C13.Batch
 * `EP`      — (d) endpoint pool life cycle (`udp_endpoint_pool.go`), sequential specification
 * `Route`   — (d) which endpoint carries a packet: the endpoint part of `handlePkt` (`udp.go`)
 * `Batch`   — ingress batch reader: one exclusive buffer per packet (`udp_ingress_batch.go`)
+* `Ingress` — from the socket to the task queues: address convergence, flow key, dispatch strategy, and the
+  composition of ONE reader goroutine with `TQ` (`control_plane.go`, `Serve`)
 * `EPC`     — (d) the lock structure of `GetOrCreate` for one key (transition system, with its invariant)
 -/
